@@ -521,6 +521,7 @@ def generate(prop, seed):
     return {'config': cfg, 'transfers': transfers, 'faults': faults, 'driver': script,
             'knobs': {'io_chunk': rng.randint(1, 5), 'short_reads': rng.random() < 0.6,
                       'latency': wchoice(rng, [('none', 3), ('random', 1)]),
+                      'fs_buffer': wchoice(rng, [(8192, 3), (0, 1), (3, 1)]),
                       'validate_params': True},
             'strategy': gen_strategy(rng, est), 'sched_seed': rng.randrange(1 << 62),
             'fs_seed': rng.randrange(1 << 30), 'max_steps': 60 * est + 20000,
